@@ -35,6 +35,12 @@ package client
 //@   props C10
 //@   requires (respRxAuto || clientTx(respRx, c.config.BandwidthConfig.MaxTx) == 0) && t == c.config.CongestionConfig.Type && p == c.config.CongestionConfig.BBRProfile
 
+// nothing else in the package installs a congestion controller
+//@ structural C10: refs congestion.UseBrutal in (*clientImpl).connect
+//@ structural C10: refs congestion.UseConfigured in (*clientImpl).connect
+//@ structural C10: refs congestion.UseBBR in nowhere
+//@ structural C10: calls (*Conn).SetCongestionControl in nowhere
+
 //@ func (*clientImpl).connect
 //@   props C10
 //@   nonil
